@@ -14,7 +14,45 @@ def run(tier):
                        "entry by entry. non-trivial = at least one construction call before the read; distinct = distinct call sequences", nsim=1600)
     cc.trace_phase(chk, PID, "wiring_float_reads", 1600 if tier == "thorough" else 240, "wiring", MINE, numeric=False, reads={"simulate"})
     cc.trace_phase(chk, PID, "components_float_reads", 1600 if tier == "thorough" else 160, "components", MINE, numeric=False, reads={"simulate"})
+    directed_small_step(chk)
     return chk.finish()
+
+
+def directed_small_step(chk):
+    """one long-lived Simulator, a Parameter moved by 2e-7 between two calls: the second answer is that of the CURRENT circuit
+    (compared with a fresh Simulator and with the evaluator's permanent at 1e-12 / 1e-9)"""
+    import math
+    import numpy as np
+    import lightworks as lw
+    from lightworks import emulator as emu
+    from .. import ev
+    from ..common import library_raised
+    for k, (ins, outs) in enumerate((((1, 0, 1), None), ((1, 1, 0), [(0, 1, 1), (2, 0, 0), (1, 1, 0)]), ((2, 0, 0), None))):
+        p = lw.Parameter(0.3)
+        c = lw.Circuit(3)
+        c.bs(0, 1); c.ps(1, p); c.bs(0, 1); c.bs(1, 2, reflectivity=0.4); c.ps(2, 0.9); c.bs(0, 2, convention="H")
+        sim = emu.Simulator(c)
+        chk.count(key="small-step%d" % k)
+        try:
+            o = None if outs is None else [lw.State(list(x)) for x in outs]
+            sim.simulate(lw.State(list(ins)), o)
+            p.set(0.3 + 2e-7)
+            r2 = sim.simulate(lw.State(list(ins)), o)
+            rf = emu.Simulator(c).simulate(lw.State(list(ins)), o)
+        except Exception as e:  # noqa: BLE001
+            if not library_raised(e):
+                raise
+            chk.violation("read_raised/simulate/%s" % type(e).__name__, "simulate on a long-lived Simulator raised %s: %s" % (type(e).__name__, e), {"directed": "small step"}, {"clause": "read_raised"})
+            continue
+        U = c.U_full
+        worst = 0.0
+        for j, st in enumerate(r2.outputs):
+            worst = max(worst, abs(r2.array[0, j] - ev.amplitude(U, list(ins), list(st.s))))
+        if [tuple(s.s) for s in r2.outputs] != [tuple(s.s) for s in rf.outputs] or np.abs(r2.array - rf.array).max() > 1e-12 or worst > 1e-9:
+            chk.violation("amplitude", "a long-lived Simulator, after a Parameter moved by 2e-7, returns amplitudes that differ from a fresh Simulator's by %.3g "
+                          "(from the permanent of the current matrix by %.3g)" % (float(np.abs(r2.array - rf.array).max()) if r2.array.shape == rf.array.shape else float("nan"), worst),
+                          {"directed": "small step", "input": list(ins)}, {"clause": "amplitude", "directed": "small_step"})
+    chk.add_phase("directed history: one Simulator across a parameter step of 2e-7", cases=3)
 
 
 def replay_file(path):
